@@ -9,9 +9,17 @@ MAXSIZE = sys.maxsize
 
 
 # ----------------------------------------------------------------- terms
+def zint(n):
+    """big integers as hexadecimal literals: Coq reads a 400-digit decimal literal in ~0.1 s, a hex one at once"""
+    n = int(n)
+    if abs(n) < 10 ** 18:
+        return n
+    return Raw("0x%x" % n) if n > 0 else Raw("(- 0x%x)" % -n)
+
+
 def fl_term(f):
     if f[0] == "FFin":
-        return C("FFin", bool(f[1]), int(f[2]))
+        return C("FFin", bool(f[1]), zint(f[2]))
     return C(f[0])
 
 
@@ -28,7 +36,7 @@ def val_term(j):
     if k in ("PBool", "PNpBool"):
         return C(k, bool(j[1]))
     if k in ("PInt", "PIntSub", "PCallable", "PModule", "POther", "PType"):
-        return C(k, int(j[1]))
+        return C(k, zint(j[1]))
     if k in ("PFloat", "PFloatSub"):
         return C(k, fl_term(j[1]))
     if k == "PComplex":
@@ -38,11 +46,11 @@ def val_term(j):
     if k in ("PTuple", "PTupleSub", "PList"):
         return C(k, [val_term(x) for x in j[1]])
     if k == "PNpInt":
-        return C(k, int(j[1]), int(j[2]))
+        return C(k, int(j[1]), zint(j[2]))
     if k == "PNpFloat":
         return C(k, int(j[1]), fl_term(j[2]))
     if k == "PIndexObj":
-        return C(k, conv_term(j[1], int))
+        return C(k, conv_term(j[1], zint))
     if k == "PFloatObj":
         return C(k, conv_term(j[1], fl_term))
     if k == "PComplexObj":
@@ -69,7 +77,7 @@ def desc_term(d):
     if k == "DRangeF":
         return C(k, oflt(d[1]), oflt(d[2]), int(d[3]))
     if k == "DRangeI":
-        return C(k, opt(d[1]), opt(d[2]), int(d[3]))
+        return C(k, opt(None if d[1] is None else zint(d[1])), opt(None if d[2] is None else zint(d[2])), int(d[3]))
     if k == "DEnum":
         return C(k, [val_term(x) for x in d[1]])
     if k == "DMap":
@@ -245,8 +253,9 @@ def instances():
     return out
 
 
-def adapts():
-    return [["DAdapt", 100, mode, an, ["PNone"]] for mode in (1, 2) for an in (True, False)]
+def adapts(modes=(1,)):
+    """adapt='default' (mode 2) is generated stand-alone and in the fixed F21 configurations only"""
+    return [["DAdapt", 100, mode, an, ["PNone"]] for mode in modes for an in (True, False)]
 
 
 def types_():
@@ -280,11 +289,14 @@ PREFIX_VALUES = [S(t) for t in ("yes", "y", "ye", "yest", "n", "no", "nop", "nop
 # casting ids 0 no, 1 equiv, 2 safe, 3 same_kind, 4 unsafe
 ARRAYS = [["DArray", None, None, 4], ["DArray", 30, None, 4], ["DArray", 33, [3], 4], ["DArray", 30, [None, 3], 4],
           ["DArray", 30, [[2, 3], 3], 4], ["DArray", 30, [[2, None], None], 4], ["DArray", 33, None, 2],
-          ["DArray", 31, None, 3], ["DArray", 30, None, 0], ["DArray", 34, [[0, 2]], 3], ["DArray", None, [2, None], 4]]
+          ["DArray", 31, None, 3], ["DArray", 30, None, 0], ["DArray", 34, [[0, 2]], 3], ["DArray", None, [2, None], 4],
+          # parametrised dtypes: <U1 / <U3 / S2, little vs big endian float64 (ids 36, 38, 41, 30 vs 40)
+          ["DArray", 36, None, 4], ["DArray", 38, None, 2], ["DArray", 36, None, 2], ["DArray", 40, None, 4]]
 ARRAY_VALUES = [["PArray", 30, [3], 0], ["PArray", 30, [2, 3], 1], ["PArray", 33, [3, 2], 0], ["PArray", 30, [2], 2],
                 ["PArray", 34, [3], 1], ["PArray", 30, [4, 3], 0], ["PArray", 30, [1, 3], 0], ["PArray", 36, [2], 0],
                 ["PArray", 30, [2, 3, 1], 0], ["PArray", 32, [3], 0], ["PArray", 31, [2, 3], 0], ["PArray", 35, [3], 0],
                 ["PArray", 37, [3], 0], ["PArray", 30, [0], 0], ["PArray", 33, [3], 3],
+                ["PArray", 38, [2], 0], ["PArray", 40, [3], 0], ["PArray", 41, [2], 1], ["PArray", 36, [3], 1],
                 ["PList", [["PInt", 1], ["PInt", 2], ["PInt", 5]]], ["PTuple", [["PFloat", F(1.5)], ["PInt", 2]]],
                 ["PList", [["PList", [["PInt", 1], ["PInt", 2]]], ["PList", [["PInt", 2], ["PInt", 5]]]]],
                 ["PList", [["PList", [["PInt", 1], ["PInt", 2], ["PInt", 5]]], ["PList", [["PInt", 0], ["PInt", 5], ["PInt", 12]]]]],
